@@ -77,12 +77,14 @@ def run(ctx):
         plan.append((fam, "A3" if q else "A4", "A"))
         if not q or fam == "bsc":
             plan.append((fam, "F4" if q else "F5", "F"))
+            # shrinking (5 -> 2) and growing (2 -> 4) announcements: look-back over the larger list during the transition
+            plan.append((fam, "G4" if (fam == "bsc" and not q) else "G3", "G"))
         if not q:
             plan.append((fam, "B3", "B"))
     # TLC generation runs are single-worker (each edge printed once, shortest history first), so several of them run side by
     # side: jobs are taken in groups (bounded memory), generated in parallel, then replayed one router after the other.
     nb = 12 if q else 60
-    sims = [("bsc", "B"), ("heco", "B")] if q else [("bsc", "A"), ("bsc", "B"), ("heco", "B"), ("pixie", "A"), ("clique", "D"), ("bor", "P")]
+    sims = [("bsc", "B"), ("heco", "B")] if q else [("bsc", "A"), ("bsc", "B"), ("bsc", "G"), ("heco", "B"), ("pixie", "A"), ("clique", "D"), ("bor", "P")]
     jobs = [("edges", fam, g, c) for fam, g, c in plan] + [("sim", fam, None, c) for fam, c in sims if fam in fams]
 
     def generate(job):
